@@ -215,6 +215,9 @@ pub struct UWorld {
     /// actor whose pending future is being dropped by the controller right now
     pub cancelling: Option<usize>,
     pub site_log_pos: usize,
+    /// try_add calls in flight -> the most slots that were (or may have been) in use at any
+    /// instant of the call so far
+    pub tryadd_peak: BTreeMap<usize, usize>,
 }
 
 thread_local! {
@@ -306,6 +309,10 @@ impl UWorld {
         if actor != CONTROLLER {
             self.cur_op[actor] = Some(i);
         }
+        if matches!(op, UOp::TryAdd { .. }) {
+            let n = self.slots_upper(actor);
+            let _ = self.tryadd_peak.insert(i, n);
+        }
         engine::log_event(&[210, actor as u64]);
         trace!("{} invokes op#{} {:?}", an(actor), i, op);
         if let Some(sn) = usnapshot(self) {
@@ -338,6 +345,20 @@ impl UWorld {
                 self.pending_violation = Some(v);
             }
         }
+    }
+    /// Upper bound of the slots in use right now, not counting what `actor` itself is adding:
+    /// every object that is in the pool, checked out, on its way back, being taken (its slot is
+    /// freed somewhere inside that call) or being added by somebody else.
+    fn slots_upper(&self, actor: usize) -> usize {
+        self.objs
+            .iter()
+            .filter(|o| o.destroyed.is_none())
+            .filter(|o| match o.loc {
+                Loc::Pool | Loc::Held(_) | Loc::Returning(_) | Loc::Taking(_) => true,
+                Loc::Adding(a) => a != actor,
+                Loc::Raw(_) => false,
+            })
+            .count()
     }
     /// objects that belong to the pool (added and not handed back for good)
     fn n_owned(&self) -> usize {
@@ -766,6 +787,16 @@ fn oracle_on_return(w: &mut UWorld, opi: usize) -> Option<Violation> {
             }
         }
     }
+    // ---- try_add reports Timeout only if the pool was full at some instant of the call ----
+    if let UOp::TryAdd { .. } = op.op {
+        let peak = w.tryadd_peak.remove(&opi).unwrap_or(usize::MAX).max(w.slots_upper(op.actor));
+        if matches!(res, URes::Refused(_, UErr::Timeout)) && peak < max && !w.close_invoked && (is(w, "C05") || is(w, "C10")) {
+            return v(
+                "try_add_timeout_iff_full",
+                format!("try_add reported Timeout although at most {peak} of {max} slots were in use at any instant of the call"),
+            );
+        }
+    }
     // ---- Closed is the answer of a closed pool only ----------------------------------------
     if !w.close_invoked && matches!(res, URes::Err(UErr::Closed) | URes::Refused(_, UErr::Closed)) {
         return v("closed_only_when_closed", format!("{:?} returned {:?} on a pool that was never closed", op.op, res));
@@ -873,6 +904,14 @@ fn oracle_on_return(w: &mut UWorld, opi: usize) -> Option<Violation> {
 }
 
 pub fn after_step(w: &mut UWorld, info: &SimInfo) -> Option<Violation> {
+    if !w.tryadd_peak.is_empty() {
+        let keys: Vec<usize> = w.tryadd_peak.keys().copied().collect();
+        for k in keys {
+            let n = w.slots_upper(w.ops[k].actor);
+            let e = w.tryadd_peak.get_mut(&k).unwrap();
+            *e = (*e).max(n);
+        }
+    }
     if let Decision::Run(a) | Decision::Cancel(a) | Decision::Spurious(a) = info.last {
         let _ = w.last_run_step.insert(a, info.step);
     }
@@ -1143,6 +1182,7 @@ pub fn run_uscenario(sc: &UScenario, replay: Option<Vec<Decision>>, trace: bool)
         rest_points: 0,
         cancelling: None,
         site_log_pos: 0,
+        tryadd_peak: BTreeMap::new(),
     };
     let pool = build(sc, &mut w);
     w.pool = Some(pool);
